@@ -429,8 +429,8 @@ def run(chk):
     model = Proc([common.build_model("c11")], timeout=900.0)   # a timeout is not a verdict: two orders above a normal request
     mos = common.build_mos()
     thorough = chk.tier == "thorough"
-    nprog = 480 if thorough else 80
-    nbuild = 120 if thorough else 20
+    nprog = 480 if thorough else 56
+    nbuild = 120 if thorough else 14
     workdir = os.path.join(common.CACHE, "work")
     os.makedirs(workdir, exist_ok=True)
     dist = {"programs": 0, "rejected": 0, "entries": 0, "files": 0, "bytes": 0, "relocated_segments": 0, "multi_segment": 0,
